@@ -93,6 +93,19 @@ func checkC18(c *Ctx) {
 	}
 	// every write is counted: the exported Store goes through Write (and its cache_write), like Load through Read (C07 R07.6)
 	c.borrowKinds("C07", func() { c.c07LoadStore() }, "R18.2", "Load/Store:through-Read/Write", []string{"R07.6"}, "store-count", "load-read", "store-args")
+	// "non-skipped backend reads": a read is skipped exactly when the caller's context carries the SkipRead flag — the accessor finds the
+	// flag by a comma-ok lookup, and WithTTL derives its context from the one it is given (context.WithValue), so an earlier
+	// WithSkipRead survives it (C06 R06.7 / R06.3)
+	c.borrow("C06", func() { c.c06Accessors(); c.c06WithTTL() }, func(o *coreObl) (string, bool) {
+		return "R18.1", o.Rule == "R06.7" && o.Construct == "SkipRead" || o.Rule == "R06.3" && o.Construct == "WithTTL"
+	})
+	// "the entries touched by ExpireAll / removed by DeleteAll": the batch operations visit every shard and every entry once, on the
+	// calling goroutine's own sequence (C07 R07.4) — what they count is what they visited
+	c.borrow("C07", func() {
+		for _, b := range backends {
+			c.c07Batch(b)
+		}
+	}, func(o *coreObl) (string, bool) { return "R18.3", o.Rule == "R07.4" && !strings.HasSuffix(o.Construct, ".Len") })
 	c.c18Evict()
 	c.c18Wiring()
 	c.c18DefaultBackend()
